@@ -222,6 +222,19 @@ class Universe:
     def IO(self, h, which):
         return h.inputs if which % 2 == 0 else h.outputs
 
+    def spell(self, items):
+        """The same elements under another spelling of "iterable" (the signatures take Iterable): list, tuple, generator,
+        one-shot iterator - chosen by a counter, so that a history always spells its arguments the same way."""
+        self._spell = getattr(self, "_spell", 0) + 1
+        k = (self._spell + len(items)) % 4
+        if k == 0:
+            return list(items)
+        if k == 1:
+            return tuple(items)
+        if k == 2:
+            return (x for x in list(items))
+        return iter(list(items))
+
 
 class Malformed(Exception):
     pass
@@ -254,7 +267,7 @@ def _new_value(u, s, with_const):
 def _new_node(u, opi, ins, nout, s, h):
     graph = None if h % 4 == 3 else u.H(h)
     n = ir.Node(
-        "", OPS[opi % len(OPS)], [u.VN(i) for i in ins[:3]], num_outputs=nout % 4, name=u.NAME(s), graph=graph
+        "", OPS[opi % len(OPS)], u.spell([u.VN(i) for i in ins[:3]]), num_outputs=nout % 4, name=u.NAME(s), graph=graph
     )
     u.reg_node(n)
     return n
@@ -266,7 +279,7 @@ def _new_node_outs(u, opi, ins, outs, h):
     outs = u.VL(outs[:3])
     if u.safe:  # known finding: a graph input/initializer is accepted as node output
         outs = [v for v in outs if not (v.is_graph_input() or v.is_initializer())]
-    n = ir.Node("", OPS[opi % len(OPS)], [u.VN(i) for i in ins[:3]], outputs=outs, graph=graph)
+    n = ir.Node("", OPS[opi % len(OPS)], u.spell([u.VN(i) for i in ins[:3]]), outputs=outs, graph=graph)
     u.reg_node(n)
     return n
 
@@ -286,25 +299,25 @@ def _g_append(u, h, n):
 
 @op("g_extend", "hN")
 def _g_extend(u, h, ns):
-    u.H(h).extend(u.NL(ns))
+    u.H(h).extend(u.spell(u.NL(ns)))
 
 
 @op("g_insert_before", "hnNb")
 def _g_insert_before(u, h, n, ns, single):
     arg = u.NL(ns)
-    u.H(h).insert_before(u.N(n), arg[0] if single and arg else arg)
+    u.H(h).insert_before(u.N(n), arg[0] if single and arg else u.spell(arg))
 
 
 @op("g_insert_after", "hnNb")
 def _g_insert_after(u, h, n, ns, single):
     arg = u.NL(ns)
-    u.H(h).insert_after(u.N(n), arg[0] if single and arg else arg)
+    u.H(h).insert_after(u.N(n), arg[0] if single and arg else u.spell(arg))
 
 
 @op("g_remove", "hNbb")
 def _g_remove(u, h, ns, single, safe):
     arg = u.NL(ns)
-    u.H(h).remove(arg[0] if single and arg else arg, safe=safe)
+    u.H(h).remove(arg[0] if single and arg else u.spell(arg), safe=safe)
 
 
 @op("g_move", "hn")
@@ -324,13 +337,13 @@ def _g_sort(u, h):
 @op("n_prepend", "nNb")
 def _n_prepend(u, n, ns, single):
     arg = u.NL(ns)
-    u.N(n).prepend(arg[0] if single and arg else arg)
+    u.N(n).prepend(arg[0] if single and arg else u.spell(arg))
 
 
 @op("n_append", "nNb")
 def _n_append(u, n, ns, single):
     arg = u.NL(ns)
-    u.N(n).append(arg[0] if single and arg else arg)
+    u.N(n).append(arg[0] if single and arg else u.spell(arg))
 
 
 @op("n_replace_input", "niV")
@@ -377,7 +390,7 @@ def _io_append(u, h, c, v):
 
 @op("io_extend", "hcL")
 def _io_extend(u, h, c, vs):
-    u.IO(u.H(h), c).extend(u.VL(vs))
+    u.IO(u.H(h), c).extend(u.spell(u.VL(vs)))
 
 
 @op("io_insert", "hciv")
@@ -411,7 +424,7 @@ def _io_setitem(u, h, c, i, v):
 @op("io_setslice", "hciiL")
 def _io_setslice(u, h, c, i, j, vs):
     coll = u.IO(u.H(h), c)
-    coll[i % (len(coll) + 1) : j % (len(coll) + 2)] = u.VL(vs)
+    coll[i % (len(coll) + 1) : j % (len(coll) + 2)] = u.spell(u.VL(vs))
 
 
 @op("io_delitem", "hci")
@@ -668,6 +681,47 @@ def _new_function(u, h, k):
 
 SETTER_OPS = ["n_set_attr", "n_set_fields", "v_set_fields", "v_set_equal", "v_set_unprintable_const", "new_model", "new_function"]
 DEFAULT_OPS = [k for k in ALPHABET if k not in ("conv_replace_nodes_values",) and k not in SETTER_OPS]
+
+
+def stress_tail(u):
+    """A fixed sequence of edits applied after a history; returns what each step showed (exception class or ownership flags)."""
+    obs = []
+    graphs = list(u.graphs)[:4]
+    values = list(u.values)[:14]
+
+    def flags(v):
+        g = v.graph
+        return (v.is_graph_input(), v.is_graph_output(), v.is_initializer(), next((i for i, x in enumerate(u.graphs) if x is g), None), v.name)
+
+    for gi, g in enumerate(graphs):
+        for ci, coll in enumerate((g.inputs, g.outputs)):
+            for vi, v in enumerate(values):
+                step = f"g{gi}.{'inputs' if ci == 0 else 'outputs'}: append v{vi} twice, pop, remove"
+                try:
+                    coll.append(v)
+                    coll.append(v)
+                    coll.pop()
+                    mid = flags(v)
+                    coll.remove(v)
+                    obs.append((step, mid, flags(v), len(coll)))
+                except Exception as e:
+                    obs.append((step, type(e).__name__, flags(v), len(coll)))
+        for vi, v in enumerate(values):
+            step = f"g{gi}.initializers: register v{vi}, rename, unregister"
+            try:
+                had = v.name in g.initializers
+                g.register_initializer(v)
+                a = flags(v)
+                old = v.name
+                v.name = f"{old}_t"
+                b = (flags(v), sorted(k for k in g.initializers if k in (old, f"{old}_t")))
+                v.name = old
+                if not had:
+                    del g.initializers[old]
+                obs.append((step, a, b, flags(v)))
+            except Exception as e:
+                obs.append((step, type(e).__name__, flags(v)))
+    return obs
 
 
 def op_strategy(names=None):
